@@ -445,9 +445,31 @@ class Adder:
                 self.world_.add_processor(self.added, priority=self.priority)
 
 
-def h_update(sp, max_listeners=3, frames=2, adder=False):
+class UpdateBoom(Exception):
+    pass
+
+
+@desper.event_handler('on_update')
+class Raiser:
+    """an on_update listener that raises in exactly one frame (after recording the dt)"""
+
+    def __init__(self, frame):
+        self.got = []
+        self.frame = frame
+
+    def on_update(self, dt):
+        self.got.append(dt)
+        if len(self.got) - 1 == self.frame:
+            raise UpdateBoom('listener failed in frame %d' % self.frame)
+
+
+def h_update(sp, max_listeners=3, frames=2, adder=False, raiser=False):
     w = World()
     w.add_processor(desper.OnUpdateProcessor())
+    boom = None
+    if raiser:
+        boom = Raiser(sp.choose(frames, 'raising-frame'))
+        w.create_entity(boom)
     n = sp.choose(max_listeners + 1, 'n-listeners')
     ls = []
     if adder:
@@ -466,7 +488,29 @@ def h_update(sp, max_listeners=3, frames=2, adder=False):
     for f in range(frames):
         dt = sp.real('dt%d' % f)
         dts.append(dt)
-        w.process(dt)
+        if boom is not None:
+            try:
+                w.process(dt)
+                raised = False
+            except UpdateBoom:
+                raised = True
+            sp.check(raised is (f == boom.frame), 'exception-propagates',
+                     'frame %d: the listener %s, process() %s' % (
+                         f, 'raised' if f == boom.frame else 'did not raise', 'raised' if raised else 'returned normally'))
+            sp.check(len(boom.got) == f + 1 and boom.got[-1] is dt, 'on_update',
+                     'the raising listener got %r by frame %d' % (boom.got, f))
+            if f == boom.frame:
+                # who else is told in the frame that fails is not fixed (listener order); nobody is told twice
+                for l in ls:
+                    sp.check(len(l.got) in (f, f + 1), 'on_update', 'listener got %r in the failing frame %d' % (l.got, f))
+                    del l.got[f:]
+                    l.got.append(dt)
+                sp.cover('listener-raised')
+                continue
+            if f > boom.frame:
+                sp.cover('frame-after-failure')
+        else:
+            w.process(dt)
         for l in ls:
             sp.check(len(l.got) == f + 1 and l.got[-1] is dt, 'on_update',
                      'listener got %r in frame %d (dt object %r)' % (l.got, f, dt))
@@ -494,10 +538,12 @@ TIERS = {
               ('twin', dict(steps=1, second_types=1)),
               ('twin', dict(steps=3, focus='procs'), dict(required=PROC_OPS + ['direct-world-op'])),
               ('twin', dict(steps=3, focus='comps'), dict(required=FOCUS_COMP_OPS + ['ref-set-sub', 'direct-world-op'])),
-              ('proto', dict(n_types=2)), ('update', dict())],
+              ('proto', dict(n_types=2)), ('update', dict()),
+              ('update', dict(max_listeners=2, frames=3, raiser=True), dict(required=['relayed', 'listener-raised', 'frame-after-failure']))],
     'thorough': [('update', dict(max_listeners=3, frames=3, adder=True), dict(required=['relayed', 'listener-adds-processor'])),
                  ('twin', dict(steps=2)), ('twin', dict(steps=4, focus='procs'), dict(required=PROC_OPS + ['direct-world-op'])),
-                 ('twin', dict(steps=4, focus='comps'), dict(required=FOCUS_COMP_OPS + ['ref-set-sub', 'direct-world-op'])), ('proto', dict(n_types=3)), ('update', dict(max_listeners=4, frames=3))],
+                 ('twin', dict(steps=4, focus='comps'), dict(required=FOCUS_COMP_OPS + ['ref-set-sub', 'direct-world-op'])), ('proto', dict(n_types=3)), ('update', dict(max_listeners=4, frames=3)),
+                 ('update', dict(max_listeners=3, frames=4, raiser=True), dict(required=['relayed', 'listener-raised', 'frame-after-failure']))],
 }
 BUDGET_S = {'quick': 150, 'thorough': 1500}
 EXPLANATION = (
@@ -513,7 +559,9 @@ RULE = ('one evaluation = one feasible path (state bits x operation, or recipe b
 BOUNDS = {'quick': 'twin: id 1 x 3 types (A, B(A), X), id 2 x 1 type + dead + 2 processors, controller on either id, 1 operation of 14; '
                    'proto: <=2 listed types; update: <=3 listeners, 2 frames',
           'thorough': 'twin: 2 operations; proto: <=3 listed types; update: <=4 listeners, 3 frames'}
-ASSUMPTIONS = ['an on_update listener may register one more processor (symbolic priority) from inside its callback: every listener must still be told each frame\'s dt exactly once; whether the new processor already runs in that frame is don\'t-care',
+ASSUMPTIONS = ['update with raiser=True: one on_update listener raises in one solver-chosen frame; the exception must leave process(), '
+               'which listeners were told in that frame is free, and every later frame relays to everyone exactly once again',
+               'an on_update listener may register one more processor (symbolic priority) from inside its callback: every listener must still be told each frame\'s dt exactly once; whether the new processor already runs in that frame is don\'t-care',
                'component identity is compared through (class name, tag) because twin worlds hold mirrored instances',
                'a reference is only assigned an instance of its declared type (the descriptor asserts it)',
                'init_methods is resolved by ordinary attribute lookup: a subclass that defines init_methods replaces the inherited dictionary']
